@@ -213,6 +213,7 @@ class Ctx:
         self.stack = []
         self.lines = []
         self.generic = 0
+        self.loopdepth = 0
         self.probes = {}      # ext name -> list of recorded (where, argdeg)
         self.probe_names = set()
         self.fn_probes = {}   # package function qual -> list of (args, kw, ret)
@@ -1230,10 +1231,55 @@ def store_sub(base, idx, v, node):
     return join(b, vv)
 
 
+def _rmw_target(s):
+    """`T[idx] = f(T[idx], ...)` / `T[idx] op= x` with T a plain name: element-wise read-modify-write"""
+    t = s.targets[0] if isinstance(s, ast.Assign) and len(s.targets) == 1 else (s.target if isinstance(s, ast.AugAssign) else None)
+    if not (isinstance(t, ast.Subscript) and isinstance(t.value, ast.Name)):
+        return None
+    if isinstance(s, ast.AugAssign):
+        return t
+    key = ast.unparse(t)
+    for n in ast.walk(s.value):
+        if isinstance(n, ast.Subscript) and ast.unparse(n) == key:
+            return t
+    return None
+
+
+def exec_rmw(s, t, fr):
+    """optimistic step (listed in evidence): an element-wise read-modify-write whose indices are loop variables updates each
+    element once, so the array after the loop is f(array before the loop), not an accumulation over iterations"""
+    name = t.value.id
+    shadow = name + "@orig"
+    cur = fr.env.get(name)
+    orig = fr.env.get(shadow, cur)
+    fr.env[name] = orig
+    try:
+        if isinstance(s, ast.AugAssign):
+            v = binop(s.op, ev(t, fr), ev(s.value, fr), s)
+        else:
+            v = ev(s.value, fr)
+    finally:
+        fr.env[name] = cur
+    b = num(orig)
+    vv = num(v)
+    if isinstance(b, (Deg, Any_)) and isinstance(vv, (Deg, Any_, Top, Unk)):
+        fr.env[name] = withrank(vv, getattr(b, "rank", None)) if isinstance(vv, (Deg, Any_)) else vv
+        fr.env[shadow] = orig
+        CTX.events.append(("assume", CTX.where(), f"element-wise in-place update of {name}: each element updated once"))
+        return True
+    return False
+
+
 def exec_stmt(s, fr):
+    if isinstance(s, (ast.Assign, ast.AugAssign)) and CTX.loopdepth:
+        t = _rmw_target(s)
+        if t is not None and isinstance(fr.env.get(t.value.id), (Deg, Any_)) and exec_rmw(s, t, fr):
+            return
     if isinstance(s, ast.Assign):
         v = ev(s.value, fr)
         for t in s.targets:
+            if isinstance(t, ast.Name):
+                fr.env.pop(t.id + "@orig", None)
             assign(t, v, fr, s)
     elif isinstance(s, ast.AnnAssign):
         if s.value is not None:
@@ -1342,6 +1388,14 @@ def exec_stmt(s, fr):
 
 
 def exec_loop(s, fr):
+    CTX.loopdepth += 1
+    try:
+        _exec_loop(s, fr)
+    finally:
+        CTX.loopdepth -= 1
+
+
+def _exec_loop(s, fr):
     if isinstance(s, ast.For):
         it = ev(s.iter, fr)
         if isinstance(it, Tup):
@@ -1755,6 +1809,10 @@ def attr(o, name, node, fr):
         if o.cls:
             f = CTX.prog.find_method(o.cls, name)
             if f:
+                if f.is_property:
+                    return call_fn(Fn(f, bound=o), [], {}, node)
+                if f.is_static:
+                    return Fn(f)
                 return Fn(f, bound=o)
             c, ca = CTX.prog.find_classattr(o.cls, name)
             if ca is not None:
@@ -1799,7 +1857,7 @@ def attr(o, name, node, fr):
         if cls is not None:
             f = CTX.prog.find_method(cls, name, after=cls)
             if f is not None:
-                return Fn(f, bound=selfv)
+                return Fn(f) if f.is_static else Fn(f, bound=selfv)
         return Unk(f"super().{name}")
     return Unk(f"attr {name} of {type(o).__name__}")
 
